@@ -112,7 +112,13 @@ def gen(prog, pid, found_err_ty=None):
     plan[(E, 'FromStr', 'from_str')] = Contract(ensures=clauses('r'), props=props)
     plan[(E, 'TryFrom', 'try_from')] = Contract(
         ensures=clauses('r'), props=props,
-        body_subst=[(['::', 'core', '::', 'str', '::', 'FromStr', '::', 'from_str'], 'Self :: from_str')])
+        body_subst=[([['::', 'core', '::', 'str', '::', 'FromStr', '::', 'from_str'],
+                      ['<', 'Self', 'as', '::', 'core', '::', 'str', '::', 'FromStr', '>', '::', 'from_str'],
+                      ['<', 'Self', 'as', 'core', '::', 'str', '::', 'FromStr', '>', '::', 'from_str'],
+                      ['<', 'Self', 'as', 'FromStr', '>', '::', 'from_str'],
+                      ['core', '::', 'str', '::', 'FromStr', '::', 'from_str'],
+                      ['FromStr', '::', 'from_str'],
+                      ['Self', '::', 'from_str']], 'Self :: from_str')])
 
     # ---- lemmas ---------------------------------------------------------------------------
     lits = []
